@@ -248,9 +248,10 @@ def generate(rng, rep=None, odd_names=False, n_exe=2, n_lib=1, with_commands=Tru
         L.append("exe%d = executable(%s, files=%s%s, compile_options=%s, link_options=%s, libs=[%s]%s)" % (
             i, pyrepr(ename), pyrepr(srcs), gensrcs, copts_text, lopts_text, ', '.join(use + [p.fwd_libs[k]['var'] for k in fuse]), pch))
         for s in srcs:
-            p.steps.append({'kind': 'compile', 'source': s, 'owner': ename, 'options': copts, 'lib': False, 'path_words': cpath})
+            p.steps.append({'kind': 'compile', 'source': s, 'owner': ename, 'options': copts, 'lib': False, 'path_words': cpath,
+                            'path_words_after_options': cpath[-1:]})
         p.steps.append({'kind': 'link', 'name': ename, 'out': ename, 'sources': srcs, 'options': lopts, 'libs': use, 'fwd': fuse,
-                        'path_words': lpath})
+                        'path_words': lpath, 'path_words_after_options': lpath})
     if with_fwd:
         # further consumers of the forwarding libraries, declared after the programs: programs and shared libraries
         for k in range(frng.randint(3, 4)):
